@@ -463,6 +463,18 @@ def fam_fiats(maxlen=3):
                 yield ("fiats/g%d/%s" % (guard, "-".join(seq)),
                        dict(tick=0.125, inits=[("env.e0", guard), ("env.e1", 0)],
                             framers=[dict(name="x", schedule="active", frames=frames), s]), dict())
+                if guard == 1 and n <= 2:
+                    # a slave declared `in front` / `in back` (legal, no effect: slaves are never scheduled), alone and with a
+                    # controller that also bids `start all` / `stop all`: only fiats may change the slave's state
+                    for order in ("front", "back"):
+                        for allbid in (None, "start", "stop"):
+                            s2 = dict(s, order=order)
+                            fr2 = [dict(f, items=list(f["items"])) for f in frames]
+                            if allbid:
+                                fr2[-1]["items"].append(("bid", "recur", allbid, ["all"], None))
+                            yield ("fiats/slave-in-%s/all-%s/%s" % (order, allbid, "-".join(seq)),
+                                   dict(tick=0.125, inits=[("env.e0", guard), ("env.e1", 0)],
+                                        framers=[dict(name="x", schedule="active", frames=fr2), s2]), dict())
 
 
 # ------------------------------------------------------------------------------- C20 markers
@@ -1017,3 +1029,50 @@ def fam_clone_shapes():
                         f0 += [("auxclone", "ms", t) for t in how.split("+")]
                     prog = dict(tick=0.125, inits=list(ENV_INITS), framers=[dict(name="m", schedule="active", frames=frames), mo])
                     yield ("cloneshapes/under-%s/first-%s/next-%s/%s" % (under, first, nxt, how), prog, dict())
+
+
+def fam_clocks_aux_interrupt():
+    """a plain auxiliary that counts with `repeat N` / `timeout T` sits on a NON-top frame while a frame above it
+    interrupts (a transition between siblings under the aux's frame, or a conditional auxiliary starting above): the
+    auxiliary's frame survives the interrupt, so its recurred must still count every completed iteration."""
+    ctxs = ("enter", "exit")
+    for tick in (0.125, 0.1):
+        for k in (2, 3, 5):
+            for N in (1, 2, 3):
+                for how in ("go-sibling", "go-same", "condaux-above"):
+                    cnt = dict(name="cnt", schedule="aux", frames=[
+                        dict(name="c0", items=recs("c0", ctxs) + [("repeat", N)]),
+                        dict(name="c1", next="c0", items=recs("c1", ctxs) + [("timeout", N * tick)])])
+                    top_items = recs("top", ctxs)
+                    extra = []
+                    if how == "go-sibling":
+                        top_items.append(("go", "low2", [("elapsed", ">=", k * tick, False)]))
+                    elif how == "go-same":
+                        top_items.append(("go", "low", [("recurred", ">=", k, False)]))
+                    else:
+                        top_items.append(("auxif", "y", [("recurred", ">=", k, False), ("recurred", "<", k + 2, False)]))
+                        extra = [aux_framer_ext("y", "repeat1")]
+                    frames = [dict(name="top", items=top_items),
+                              dict(name="mid", over="top", items=recs("mid", ctxs) + [("aux", "cnt")]),
+                              dict(name="low", over="mid", items=recs("low", ctxs)),
+                              dict(name="low2", over="mid", items=recs("low2", ctxs) + [("go", "low", [("recurred", ">=", k + 1, False)])])]
+                    yield ("clocks-aux-interrupt/%r/k%d/N%d/%s" % (tick, k, N, how),
+                           dict(tick=tick, inits=[], framers=[dict(name="m", schedule="active", frames=frames), cnt] + extra),
+                           dict(tick=tick, T=N * tick, N=N, clocked=()))
+
+
+XF_ALPHABET = [None, {"x": 1}, {"x": {"note": None}}, {"x": {"note": 1}}, {"x": {"value": None}}, {"env.e0": 1}, {"env.e0": 0}]
+
+
+def fam_markers_fields():
+    """`is changed` / `is updated` on a share that GAINS fields after the mark was taken (values None, 1) and whose
+    existing field is set to None: a field added since the snapshot counts as a change whatever its value."""
+    ctxs = ("enter", "exit")
+    for kind in ("changed", "updated"):
+        for inframe in (None, "me"):
+            n = (kind, "x", inframe, None, False)
+            frames = [dict(name="A", items=recs("A", ctxs) + [("go", "B", [n])]),
+                      dict(name="B", items=recs("B", ctxs) + [("go", "A", [E0])])]
+            yield ("markers-fields/%s/%s" % (kind, inframe),
+                   dict(tick=0.125, inits=[("x", 0), ("env.e0", 0)], framers=[dict(name="m", schedule="active", frames=frames)]),
+                   dict(alphabet=XF_ALPHABET))
